@@ -200,6 +200,26 @@ def read_trace_lines(path):
     return [json.loads(l) for l in open(path)]
 
 
+def trace_lines_of_kind(path, kind):
+    """streams the recording and parses only the lines of one kind (recordings can be millions of lines)"""
+    tag = '"k":"%s"' % kind
+    out = []
+    with open(path) as f:
+        for l in f:
+            if tag in l:
+                out.append(json.loads(l))
+    return out
+
+
+def trace_line(path, n):
+    """the n-th line (1-based) of a recording"""
+    with open(path) as f:
+        for i, l in enumerate(f, 1):
+            if i == n:
+                return json.loads(l)
+    return None
+
+
 # ---------------------------------------------------------------------------------------------
 # known findings
 
